@@ -270,6 +270,11 @@ def _aug(st, name):
     return None
 
 
+def _real_defs(ds):
+    """Reaching definitions without `name = None` placeholders."""
+    return {d for d in ds if not (d.kind == 'stmt' and isinstance(d.ast, ast.Assign) and _const(d.ast.value, None))}
+
+
 def _is_full_slice(s):
     if isinstance(s, ast.Slice) and s.lower is None and s.upper is None and s.step is None:
         return True
@@ -2382,7 +2387,7 @@ def _data_per_group(repo, qn):
         pn = cp.g.nodes_of(astx.stmt_of(prods[0]))[0]
         for e in prods[0].elts:
             if isinstance(e, ast.Name):
-                ds = cp.rd.defs(pn, e.id)
+                ds = _real_defs(cp.rd.defs(pn, e.id))
                 if ds and all(d.kind == 'stmt' and isinstance(d.ast, ast.Assign) and isinstance(d.ast.value, ast.Call)
                               and astx.callee_attr(d.ast.value) == '_get_approx_data' for d in ds):
                     return any(d in body for d in ds)
@@ -2604,7 +2609,7 @@ def slots(repo, out):
         if isinstance(v, ast.Call):
             return astx.callee_attr(v)
         if isinstance(e, ast.Name):
-            ds = cxx.rd.defs(at, e.id)
+            ds = _real_defs(cxx.rd.defs(at, e.id))
             cs = set()
             for d in ds:
                 if d.kind == 'stmt' and isinstance(d.ast, ast.Assign) and isinstance(d.ast.value, ast.Call):
@@ -2794,7 +2799,7 @@ def colored_data(repo, out):
     data_defs = None
     for e in prod.elts:
         if isinstance(e, ast.Name):
-            ds = cp.rd.defs(pn, e.id)
+            ds = _real_defs(cp.rd.defs(pn, e.id))
             if ds and all(d.kind == 'stmt' and isinstance(d.ast, ast.Assign) and isinstance(d.ast.value, ast.Call) and
                           astx.callee_attr(d.ast.value) == '_get_approx_data' for d in ds):
                 data_defs = ds
@@ -3018,7 +3023,22 @@ def colored_wrt(repo, out):
                   any(isinstance(t, ast.Name) and t.id == e.id for t in d.ast.targets)]
             if not ds:
                 continue
-            w = g.path([g.entry], [pn], avoid=ds, labels=cfgm.noexc)
+            def unbound_edge(a, lab, nm=e.id):
+                """Edges feasible while `nm` still holds its None placeholder (tests of `nm is None`)."""
+                if lab == 'exc':
+                    return False
+                if a.kind == 'test' and lab in ('true', 'false'):
+                    t = a.ast.test
+                    neg = False
+                    if isinstance(t, ast.UnaryOp) and isinstance(t.op, ast.Not):
+                        t, neg = t.operand, True
+                    if isinstance(t, ast.Compare) and len(t.ops) == 1 and isinstance(t.left, ast.Name) and \
+                            t.left.id == nm and _const(t.comparators[0], None) and \
+                            isinstance(t.ops[0], (ast.Is, ast.IsNot, ast.Eq, ast.NotEq)):
+                        val = isinstance(t.ops[0], (ast.Is, ast.Eq)) != neg
+                        return val == (lab == 'true')
+                return True
+            w = _path_edges(g, [g.entry], [pn], ds, unbound_edge)
             if w is not None:
                 out.bad(fp, ds[0].ast, f'`{e.id}` is only bound when some wrt of THIS scheme is coloured; a scheme '
                         f'without coloured wrts (e.g. the fd scheme of a component whose colouring was declared with '
@@ -3393,10 +3413,16 @@ selftest(
     Mutant('colored-data-from-first-table-entry', AS,
            '        for wrt, meta in self._wrt_meta.items():\n            if wrt_matches is None or wrt in wrt_matches:\n'
            '                # data is the same for all colored approxs so we only need the first\n'
-           '                data = self._get_approx_data(system, wrt, meta)\n                break\n',
+           '                data = self._get_approx_data(system, wrt, meta)\n                break\n'
+           '        else:\n            return  # this scheme has no colored wrt\n',
            '        # data is the same for all colored approxs so we only need the first\n'
            '        wrt, meta = next(iter(self._wrt_meta.items()))\n        data = self._get_approx_data(system, wrt, meta)\n',
            'C12.colored-wrt'),
+    Mutant('colored-no-coloured-wrt-falls-through', AS, '        else:\n            return  # this scheme has no colored wrt\n', '', 'C12.colored-wrt'),
+    Mutant('seed-range-full-variable-size', AS, 'wrt_ranges.append((abs_wrt, cend - cstart))', 'wrt_ranges.append((abs_wrt, stop - start))', 'C12.seed-ranges'),
+    Mutant('unscaled-implicit-residuals-dropped', 'openmdao/core/implicitcomponent.py',
+           "            with self._unscaled_context(outputs=[self._outputs], residuals=[self._residuals]):\n                # Computing the approximation",
+           "            with self._unscaled_context(outputs=[self._outputs]):\n                # Computing the approximation", 'C12.unscaled'),
     Mutant('colored-data-filter-dropped', AS,
            '            if wrt_matches is None or wrt in wrt_matches:\n                # data is the same for all colored approxs so we only need the first\n'
            '                data = self._get_approx_data(system, wrt, meta)\n                break\n',
@@ -3662,13 +3688,15 @@ selftest(
          '        for data, jcols, vec_ind_list, nzrows, seed_vars, in colored_approx_groups:\n            mult = self._get_multiplier(data)\n',
          '        mult = self._get_multiplier(colored_approx_groups[0][0]) if colored_approx_groups else 1.0\n        for data, jcols, vec_ind_list, nzrows, seed_vars, in colored_approx_groups:\n'),
     # accepted repair idioms of the four findings on today's tree (must be decided ok, not undecided)
-    Twin('repair-implicit-unscale-residuals', 'openmdao/core/implicitcomponent.py',
-         "            with self._unscaled_context(outputs=[self._outputs]):\n                # Computing the approximation",
-         "            with self._unscaled_context(outputs=[self._outputs], residuals=[self._residuals]):\n                # Computing the approximation"),
-    Twin('repair-seed-range-size', AS, 'wrt_ranges.append((abs_wrt, stop - start))', 'wrt_ranges.append((abs_wrt, cend - cstart))'),
-    Twin('repair-seed-range-len', AS, 'wrt_ranges.append((abs_wrt, stop - start))', 'wrt_ranges.append((abs_wrt, len(rng)))'),
-    Twin('repair-no-coloured-wrt-returns', AS, '                data = self._get_approx_data(system, wrt, meta)\n                break\n',
-         '                data = self._get_approx_data(system, wrt, meta)\n                break\n        else:\n            return\n'),
+    Twin('twin-implicit-unscaled-positional', 'openmdao/core/implicitcomponent.py',
+         "            with self._unscaled_context(outputs=[self._outputs], residuals=[self._residuals]):\n                # Computing the approximation",
+         "            with self._unscaled_context([self._outputs], [self._residuals]):\n                # Computing the approximation"),
+    Twin('twin-seed-range-len', AS, 'wrt_ranges.append((abs_wrt, cend - cstart))', 'wrt_ranges.append((abs_wrt, len(rng)))'),
+    Twin('twin-seed-range-temporary', AS, 'wrt_ranges.append((abs_wrt, cend - cstart))', 'ncols = cend - cstart\n                        wrt_ranges.append((abs_wrt, ncols))'),
+    Twin('twin-no-coloured-wrt-none-placeholder', AS,
+         '        for wrt, meta in self._wrt_meta.items():\n            if wrt_matches is None or wrt in wrt_matches:',
+         '        data = None\n        for wrt, meta in self._wrt_meta.items():\n            if wrt_matches is None or wrt in wrt_matches:',
+         also=[(AS, '        else:\n            return  # this scheme has no colored wrt\n', '        if data is None:\n            return\n')]),
     Twin('repair-relative-step-not-cached', FD, '        if not self._wrt_meta:\n            return\n\n        self._starting_outs =',
          "        if not self._wrt_meta:\n            return\n\n        if any(m['step_calc'] != 'abs' for m in self._wrt_meta.values()):\n            self._reset()\n\n        self._starting_outs ="),
     Twin('twin-fd-zero-literal', FD, '        else:\n            results_array[:] = 0.\n\n        # Run', '        else:\n            results_array[:] = 0.0\n\n        # Run'),
